@@ -59,6 +59,9 @@ pub struct Case {
     /// prover's path and batch removals): the prover then works on a tree with a history
     #[serde(default)]
     pub history: Vec<c01::SideOp>,
+    /// the instance is built by new_with_params from another valid key file and works with that key
+    #[serde(default)]
+    pub own_key: bool,
 }
 
 struct Built {
@@ -204,7 +207,7 @@ fn inval_strategy() -> BoxedStrategy<Inval> {
 
 pub fn run(ctx: &Ctx, c: &Case, o: &mut Outcome) {
     // world: the identity is registered, so that a valid request is a valid membership
-    let world = c01::Case { req: c.req.clone(), pre: vec![], post: c.history.clone(), entry: Entry::FromTree, place: c01::Place::SetLeaf, second: None, variant: 0 };
+    let world = c01::Case { req: c.req.clone(), pre: vec![], post: c.history.clone(), entry: Entry::FromTree, place: c01::Place::SetLeaf, second: None, variant: if c.own_key { 8 } else { 0 } };
     let (mut r, m): (RLN, TreeModel) = match c01::build_world(&world) {
         Ok(x) => x,
         Err(e) => {
@@ -240,6 +243,9 @@ pub fn run(ctx: &Ctx, c: &Case, o: &mut Outcome) {
     }
     gens::set_io_style((case_hash(c) % 4) as u8);
     o.label(format!("io-style/{}", gens::io_style()));
+    if c.own_key {
+        o.label("instance-with-its-own-key");
+    }
     // a quarter of the cases: verification is done by a second long-lived thread of the caller
     let second = (case_hash(c) / 4) % 4 == 1;
     verify_on_second_thread(second);
@@ -346,7 +352,7 @@ pub fn run_stream(req: &Req, items: &[(Via, Inval)], o: &mut Outcome) {
     // (offset, length, via, request bytes, signal)
     let mut records: Vec<(usize, usize, Via, Vec<u8>, Vec<u8>)> = vec![];
     for (k, (via, inval)) in items.iter().enumerate() {
-        let c = Case { req: req.clone(), via: *via, inval: inval.clone(), history: vec![] };
+        let c = Case { req: req.clone(), via: *via, inval: inval.clone(), history: vec![], own_key: false };
         let b = build(&c, &m);
         let before = sink.data.len();
         let res = match via {
@@ -423,7 +429,7 @@ impl Property for C12 {
     }
     fn rule(&self) -> String {
         "proving requests for three entry points (generate_rln_proof from tree state, generate_rln_proof_with_witness, raw prove), valid ones (C01's generator; a third of the cases on a tree with a history of other members' writes, batch removals and reads of the prover's path after registration) and invalid ones by class: mid = limit, mid = limit+1+d, mid >= 2^16 with limit > mid, limit - mid > 2^16, limit = 0, mid = p-1, index in {cap, cap+1, usize::MAX}, path length 0/1/19/21, a direction value in 2..255, index vector of different length, truncation at a generated byte, trailing bytes, declared signal length longer / shorter / huge (2^32, 2^63, u64::MAX-135, u64::MAX), random bytes. Fixed part: every class (34 representatives) once on each of the three entry points; generated part: the same classes with generated requests and parameters. \
-         Oracle: Err, or Ok with a message that verification accepts (verify_rln_proof against the same tree for the tree entry, verify for witness entries); a panic or an Ok with a rejected proof is a violation; valid requests must succeed; after every third invalid request the plain valid request is proved on the same instance and must succeed and verify. The reference witness generator partitions witness-level requests (label only; an accepted proof for an assignment it rejects raises a harness alarm). A quarter of the cases have every verification call made by a second long-lived thread of the caller (taking turns with the thread that proves and changes the tree). \
+         One generated case in six (and one of the fixed valid requests) runs on an instance built by new_with_params from another valid key file. Oracle: Err (then nothing may have reached the caller's writer), or Ok with a message that verification accepts (verify_rln_proof against the same tree for the tree entry, verify for witness entries); a panic or an Ok with a rejected proof is a violation; valid requests must succeed; after every third invalid request the plain valid request is proved on the same instance and must succeed and verify. The reference witness generator partitions witness-level requests (label only; an accepted proof for an assignment it rejects raises a harness alarm). A quarter of the cases have every verification call made by a second long-lived thread of the caller (taking turns with the thread that proves and changes the tree). \
          non-trivial = any invalid class, or a valid request with mid = limit-1; distinct by case content".into()
     }
     fn assumptions(&self) -> Vec<String> {
@@ -443,8 +449,9 @@ impl Property for C12 {
             prop_oneof![3 => Just(Via::Tree), 2 => Just(Via::Witness), 1 => Just(Via::RawProve)],
             inval_strategy(),
             prop_oneof![2 => Just(vec![]).boxed(), 1 => proptest::collection::vec(c01::side_op(), 1..3).boxed()],
+            prop_oneof![5 => Just(false), 1 => Just(true)],
         )
-            .prop_map(|(req, via, inval, history)| Case { req, via, inval, history })
+            .prop_map(|(req, via, inval, history, own_key)| Case { req, via, inval, history, own_key })
             .boxed()
     }
     /// every invalid class once per entry point, on a request drawn from the seed (the generated part
@@ -495,7 +502,7 @@ impl Property for C12 {
             vec![c01::SideOp::BigRegistration(1), c01::SideOp::BatchRemove(c01::Where::Uniform(5), c01::Where::Uniform(77))],
         ];
         for (k, history) in histories.into_iter().enumerate() {
-            let c = Case { req: reqs[k % reqs.len()].clone(), via: Via::Tree, inval: Inval::Valid, history };
+            let c = Case { req: reqs[k % reqs.len()].clone(), via: Via::Tree, inval: Inval::Valid, history, own_key: k == 1 };
             let mut o = Outcome::new();
             o.label("via/Tree");
             o.label("request/Valid");
@@ -510,7 +517,7 @@ impl Property for C12 {
         }
         for (k, inval) in classes.into_iter().enumerate() {
             for via in [Via::Tree, Via::Witness, Via::RawProve] {
-                let c = Case { req: reqs[k % reqs.len()].clone(), via, inval: inval.clone(), history: vec![] };
+                let c = Case { req: reqs[k % reqs.len()].clone(), via, inval: inval.clone(), history: vec![], own_key: false };
                 let mut o = Outcome::new();
                 o.label(format!("via/{:?}", c.via));
                 o.label(format!("request/{}", inval_name(&c.inval)));
